@@ -88,14 +88,29 @@ func c15(r *core.Run) {
 			}
 		}
 	}
+	// (several methods may take the message - a helper that queues it, one that builds the request
+	// object -: the request handler is the one that is run from a queued closure)
+	var msgMethods []*ssa.Function
 	for _, m := range methodsOf(p, "", "queryEvent") {
 		if m == lst || m.Parent() != nil {
 			continue
 		}
 		for _, prm := range m.Params[1:] {
 			if strings.HasSuffix(core.TypeName(prm.Type()), "nats.go.Msg") {
-				hq = m
+				msgMethods = append(msgMethods, m)
+				break
 			}
+		}
+	}
+	for _, m := range msgMethods {
+		fromClosure := false
+		for _, c := range p.CallersOf(m) {
+			if c.Parent().Parent() != nil {
+				fromClosure = true
+			}
+		}
+		if fromClosure || len(msgMethods) == 1 {
+			hq = m
 		}
 	}
 	if mQ == nil || hq == nil || lst == nil || qev == nil {
@@ -323,7 +338,7 @@ func c15(r *core.Run) {
 					return ok && cc.Common().StaticCallee() != nil && strings.HasSuffix(cc.Common().StaticCallee().String(), "timerqueue.Queue).Add")
 				})
 				r.Check(onErr && noPub && noAdd, "N1", core.FuncName(fn), "direct-nil-call-only-on-failed-subscribe", p.InstrPos(c), "failed subscribe: callback gets nil once, nothing is published, no expiry is registered", fmt.Sprintf("direct nil call misplaced: onSubscribeErrorEdge=%v publishesNothing=%v noExpiryRegistered=%v", onErr, noPub, noAdd))
-			case core.Outermost(fn) == exp && fn != exp:
+			case fn.Parent() != nil && (core.Outermost(fn) == exp || p.Within(core.Outermost(fn), exp)):
 				r.OK("N1", core.FuncName(fn), "nil-call-inside-enqueued-expiry-closure", p.InstrPos(c), "the expiry's nil call runs on the group's worker")
 			default:
 				r.Bad("N1", core.FuncName(fn), "unexpected-nil-callback-source", p.InstrPos(c), "a third place calls the query callback with nil: it could be invoked with nil twice")
@@ -360,8 +375,24 @@ func c15(r *core.Run) {
 				}
 			}
 			stored := false
+			// (the queue may be made by a small constructor helper whose result serve stores)
+			made := []ssa.Value{c.Value()}
 			if c.Value() != nil && c.Value().Referrers() != nil {
 				for _, rf := range *c.Value().Referrers() {
+					if ret, ok := rf.(*ssa.Return); ok && len(ret.Results) == 1 && p.IsPrivateHelper(c.Parent()) {
+						for _, cs := range p.CallersOf(c.Parent()) {
+							if cs.Value() != nil {
+								made = append(made, cs.Value())
+							}
+						}
+					}
+				}
+			}
+			for _, mv := range made {
+				if mv == nil || mv.Referrers() == nil {
+					continue
+				}
+				for _, rf := range *mv.Referrers() {
 					if st, ok := rf.(*ssa.Store); ok {
 						if _, isF := core.FieldOf(st.Addr); isF && beforeWorkers(p, a, st, firstGo) && (st.Parent() == serve || unconditionalIn(st)) {
 							stored = true
@@ -377,7 +408,7 @@ func c15(r *core.Run) {
 	r.Check(tqOK, "N1", core.FuncName(serve), "expiry-is-the-timer-queue-callback", p.Pos(serve.Pos()), "the timer queue is created with the expiry function", "the timer queue's callback is not the expiry function")
 	// drain before enqueue
 	var drain, enq ssa.CallInstruction
-	for _, c := range core.Calls(exp) {
+	for _, c := range helperCalls(p, exp) { // the two steps may each sit in a small helper of the expiry
 		if cal := c.Common().StaticCallee(); cal != nil && cal.Name() == "Drain" {
 			drain = c
 		}
@@ -385,11 +416,19 @@ func c15(r *core.Run) {
 			enq = c
 		}
 	}
-	r.Check(drain != nil && enq != nil && core.Dominates(drain, enq), "N1", core.FuncName(exp), "drain-before-nil-call-enqueued", posOf(p, drain), "the subscription is drained before the final nil call is queued", "the expiry does not drain the subscription before queueing the nil call")
+	r.Check(drain != nil && enq != nil && p.DominatesIn(exp, drain, enq), "N1", core.FuncName(exp), "drain-before-nil-call-enqueued", posOf(p, drain), "the subscription is drained before the final nil call is queued", "the expiry does not drain the subscription before queueing the nil call")
 	// ... and the nil call is queued whatever the drain returns: the end of the query event is owed to
 	// the callback exactly once, also when the subscription is already gone (connection closed,
 	// service restarted on another connection)
-	r.Check(enq != nil && unconditionalIn(enq), "N1", core.FuncName(exp), "nil-call-enqueued-on-every-path", posOf(p, enq), "every path through the expiry queues the nil call", "the expiry can return without queueing the nil call (for instance when draining the subscription fails): the callback is never told that the query event ended")
+	enqAlways := enq != nil && unconditionalIn(enq)
+	if enqAlways && enq.Parent() != exp {
+		for _, site := range p.Lift(enq, exp) {
+			if !unconditionalIn(site) {
+				enqAlways = false
+			}
+		}
+	}
+	r.Check(enqAlways, "N1", core.FuncName(exp), "nil-call-enqueued-on-every-path", posOf(p, enq), "every path through the expiry queues the nil call", "the expiry can return without queueing the nil call (for instance when draining the subscription fails): the callback is never told that the query event ended")
 
 	// ---- S1 --------------------------------------------------------------
 	var inbox, subCall, pub, add ssa.CallInstruction
